@@ -676,7 +676,12 @@ class ParallelEtherCat(FastEtherCat):
                 self.ebpf.close()
                 obj_pin(programs, self.programs)
             except Exception:
-                shutil.rmtree(lockdir)
+                # joiners may have put their lock files here meanwhile
+                os.remove(f'{lockdir}/{lockfile}')
+                try:
+                    os.rmdir(lockdir)
+                except OSError:
+                    pass
                 raise
         self.mbx_lock_file = LockFile(f'/run/ebpf/{self.addr[0]}',
                                       *self.terminal_addr_range)
